@@ -115,3 +115,20 @@
 (assert (! (forall ((n Int) (p Int) (sd Int) (x Int)) (! (= (elem (k_fix n p sd) x) (fixed (sunbox x) n p sd)) :pattern ((elem (k_fix n p sd) x)))) :named ax_elem_fix))
 (assert (! (forall ((o Int) (w Int) (x Int)) (! (= (elem (k_pstr o w) x) (cat (enc o w (len (sunbox x))) (sunbox x))) :pattern ((elem (k_pstr o w) x)))) :named ax_elem_pstr))
 (assert (! (forall ((t Int) (x Int)) (! (= (elem (k_obj t) x) (Wd t x)) :pattern ((elem (k_obj t) x)))) :named ax_elem_obj))
+
+; --- checksums (spec functions)
+; bsum(s, n) = s[0] + ... + s[n-1]
+(declare-fun bsum (BSeq Int) Int)
+(assert (! (forall ((s BSeq) (n Int)) (! (=> (<= n 0) (= (bsum s n) 0)) :pattern ((bsum s n)))) :named ax_bsum_0))
+(assert (! (forall ((s BSeq) (n Int)) (! (=> (< 0 n) (= (bsum s n) (+ (bsum s (- n 1)) (at s (- n 1))))) :pattern ((bsum s n)))) :named ax_bsum_step))
+; reflected CRC-16 (poly 0xA001, as the code computes it): xor16 is bitwise exclusive-or on 16-bit values
+(declare-fun xor16 (Int Int) Int)
+(assert (! (forall ((a Int) (b Int)) (! (=> (and (<= 0 a) (< a 65536) (<= 0 b) (< b 65536)) (and (<= 0 (xor16 a b)) (< (xor16 a b) 65536))) :pattern ((xor16 a b)))) :named ax_xor16_range))
+(define-fun crcbit ((c Int)) Int (ite (= (mod c 2) 1) (xor16 (div c 2) 40961) (div c 2)))
+(declare-fun crcbits (Int Int) Int)   ; crcbits(c, i): i single-bit steps applied to c
+(assert (! (forall ((c Int) (i Int)) (! (=> (<= i 0) (= (crcbits c i) c)) :pattern ((crcbits c i)))) :named ax_crcbits_0))
+(assert (! (forall ((c Int) (i Int)) (! (=> (< 0 i) (= (crcbits c i) (crcbit (crcbits c (- i 1))))) :pattern ((crcbits c i)))) :named ax_crcbits_step))
+(declare-fun crc16r (BSeq Int) Int)   ; crc16r(s, n): reflected CRC-16 register after the first n bytes of s, init 0xFFFF
+(assert (! (forall ((s BSeq) (n Int)) (! (=> (<= n 0) (= (crc16r s n) 65535)) :pattern ((crc16r s n)))) :named ax_crc16r_0))
+(assert (! (forall ((s BSeq) (n Int)) (! (=> (< 0 n) (= (crc16r s n) (crcbits (xor16 (crc16r s (- n 1)) (at s (- n 1))) 8))) :pattern ((crc16r s n)))) :named ax_crc16r_step))
+(declare-fun crc32_ieee (BSeq) Int)
